@@ -398,7 +398,7 @@ impl Property for C03 {
         prop_oneof![6 => direct, 4 => streams, 1 => devices].boxed()
     }
     fn cases(tier: Tier) -> u32 {
-        tier.pick(80_000, 400_000)
+        tier.pick(80_000, 1_200_000)
     }
     fn exhaustive(_tier: Tier, sink: &mut dyn FnMut(Scenario)) -> Vec<String> {
         let mut forms = bin_forms();
